@@ -201,10 +201,9 @@ class Built:
         for reg in scn['regs']:
             di, target = reg[0], reg[1]
             agc = reg[2] if len(reg) > 2 else True
-            if isinstance(target, int):
-                path = os.path.join(self.tmpdir, scn['files'][target]['name'])
-            else:
-                path = os.path.join(self.tmpdir, target)
+            # '_spell': the user writes the path non-canonically (dir//name, dir/./name)
+            name = scn['files'][target]['name'] if isinstance(target, int) else target
+            path = self.tmpdir + scn.get('_spell', '/') + name
             fs.add(self.defs[di], path, allow_global_constraints=agc)
         return fs
 
